@@ -42,6 +42,18 @@ def member_roots(body, o):
     return out
 
 
+def _rounded(b, operand, site):
+    """the operand is the residual after rounding: the result of Amount::round(balance), or the `balance` parameter
+    itself once Amount::round_mut(&mut balance, ..) has run on every path to the site"""
+    if q.all_roots(b, operand, lambda r: r.kind == "call" and r.name == AMT + "::round"):
+        return True
+    if q.all_roots(b, operand, lambda r: q.is_param(r, "balance") and not r.fields):
+        for bb, t in mir.call_sites(b, [AMT + "::round_mut"]):
+            if q.all_roots(b, t["args"][0], lambda r: q.is_param(r, "balance") and not r.fields) and b.must_pass_block(site, bb):
+                return True
+    return False
+
+
 def check_accept_paths(P, chk):
     b = P.body(BK + "::check_balance")
     chk.analysed(b)
@@ -56,7 +68,7 @@ def check_accept_paths(P, chk):
             form1 = False
             for cn, lab, ct in q.guard_calls(b, bb):
                 if cn == AMT + "::is_zero" and lab is True:
-                    if q.all_roots(b, ct["args"][0], lambda r: r.kind == "call" and r.name == AMT + "::round"):
+                    if _rounded(b, ct["args"][0], bb):
                         form1 = True
             # form 2: implied exchange
             pair = any(a.kind == "variant" and a.label == ("Some",) and
@@ -122,7 +134,7 @@ def check_accept_paths(P, chk):
     chk.floor("Ok returns of check_balance", n_ok, 2)
     # the rounded residual is what is tested and paired
     for bb, t in mir.call_sites(b, [AMT + "::maybe_pair"]):
-        chk.require(q.all_roots(b, t["args"][0], lambda r: r.kind == "call" and r.name == AMT + "::round"),
+        chk.require(_rounded(b, t["args"][0], bb),
                     R_ACC, "check_balance|maybe_pair-on-rounded", b.loc(bb),
                     "maybe_pair is not taken from the rounded residual", "maybe_pair(rounded residual)")
     for bb, t in mir.call_sites(b, [AMT + "::round"]):
